@@ -345,6 +345,23 @@ type Exec struct {
 	// HonourCancel: a call made with an already cancelled context fails with the context's error (what a remote
 	// execution client does); off by default.
 	HonourCancel bool
+	// Hang, if set and true at the entry of ExecuteTxs/SetFinal, makes a call whose context is still live wait until
+	// that context ends (a remote execution client that has stopped answering); the call then fails with the
+	// context's error. Only meaningful together with HonourCancel. A killed process frees the caller.
+	Hang func() bool
+}
+
+// hang implements Exec.Hang for one call; it returns the error to fail with (nil = do not hang).
+func (c *ExecClient) hang(ctx context.Context) error {
+	e := c.Exec
+	if e.Hang == nil || !e.Hang() || ctx.Err() != nil {
+		return nil
+	}
+	for ctx.Err() == nil {
+		c.Fate.Check()
+		time.Sleep(50 * time.Millisecond)
+	}
+	return ctx.Err()
 }
 
 func NewExec() *Exec { return &Exec{} }
@@ -420,6 +437,9 @@ func (c *ExecClient) GetTxs(ctx context.Context) ([][]byte, error) {
 func (c *ExecClient) ExecuteTxs(ctx context.Context, txs [][]byte, height uint64, ts time.Time, prev []byte) ([]byte, uint64, error) {
 	c.enter(fmt.Sprintf("exec.exec %d", height))
 	e := c.Exec
+	if err := c.hang(ctx); err != nil {
+		return nil, 0, err
+	}
 	if e.HonourCancel && ctx.Err() != nil {
 		e.mu.Lock()
 		e.Calls = append(e.Calls, ExecCall{Kind: "exec", Height: height, Err: true})
@@ -461,6 +481,9 @@ func (c *ExecClient) ExecuteTxs(ctx context.Context, txs [][]byte, height uint64
 func (c *ExecClient) SetFinal(ctx context.Context, height uint64) error {
 	c.enter(fmt.Sprintf("exec.final %d", height))
 	e := c.Exec
+	if err := c.hang(ctx); err != nil {
+		return err
+	}
 	if e.HonourCancel && ctx.Err() != nil {
 		e.mu.Lock()
 		e.Calls = append(e.Calls, ExecCall{Kind: "final", Height: height, Err: true})
